@@ -8,7 +8,7 @@ os.makedirs(dst, exist_ok=True)
 patch = os.path.join(src, "patch.rebased.diff") if os.path.exists(os.path.join(src, "patch.rebased.diff")) else os.path.join(src, "patch.diff")
 shutil.copy(patch, os.path.join(dst, "patch.diff"))
 for f in os.listdir(src):
-    if f.startswith("demo") or f.endswith("_test.go") or f.endswith(".go"):
+    if f.startswith("demo") or f.endswith("_test.go") or f.endswith(".go") or f.endswith(".c") or f.endswith(".sh"):
         shutil.copy(os.path.join(src, f), os.path.join(dst, f))
 meta = json.load(open(os.path.join(src, "meta.json")))
 head = subprocess.run(["git", "-C", "/repo", "rev-parse", "--short", "HEAD"], capture_output=True, text=True).stdout.strip()
